@@ -53,13 +53,14 @@ structure Map (m : Type → Type) (σ : Type) (T U : Type) where
 /-- a destination of plain-old-data elements as the typed byte wrappers see it: `mem::size_of_val(buf)` -/
 structure Pod where
   size_of_val : BitVec 64
+  len : BitVec 64 := 1
 
 /-- `slice::from_raw_parts_mut(buf.as_mut_ptr() as *mut MaybeUninit<u8>, n)`: the `n` bytes at the address of `buf` (the translator checks that
 the pointer IS `buf.as_mut_ptr()` cast to a byte pointer) -/
 def from_raw_parts_mut (_buf : Pod) (n : BitVec 64) : BitVec 64 := n
 
 /-- `MaybeUninit::<T>::uninit()` for a `T` of `size` bytes, and `slice::from_mut(&mut value)`: the one-element slice over it -/
-def uninit (size : BitVec 64) : Pod := ⟨size⟩
+def uninit (size : BitVec 64) : Pod := { size_of_val := size }
 def from_mut (value : Pod) : Pod := value
 /-- `value.assume_init()` -/
 def Pod.assume_init (value : Pod) : Pod := value
